@@ -308,6 +308,25 @@ def wrapping(text, tns, tlocal, deep=False):
                 e = evil(idmode, sigmode)
                 yield "xsw:sibling-before:%s:%s" % (idmode, sigmode), "xsw", doc.insert_before(t, e).text()
                 yield "xsw:sibling-after:%s:%s" % (idmode, sigmode), "xsw", doc.insert_after(t, e).text()
+        # ... plus an EncryptedAssertion at the end of the response (one that opens to a third, forged assertion; one nobody can open): with
+        # cipher text in the message the rule "exactly one assertion" is no longer what refuses the unsigned sibling
+        try:
+            from vlib import fed
+            from vlib.xmlkit import encrypt_fragment
+            third = evilize(orig, new_id=tid + "y", keep_sig=False)
+            ed = encrypt_fragment(third, fed.key(2)[1])
+            ed = ed.decode("utf-8") if isinstance(ed, bytes) else ed
+            m_ = re.search(r"<(\w+:)?CipherValue>([^<]{40,})</", ed)
+            junk = ed.replace(m_.group(2), m_.group(2)[:10] + "AAAABBBBCCCCDDDD" + m_.group(2)[26:], 1) if m_ else ed
+            for ename, edata in (("opens", ed), ("junk", junk)):
+                enc_el = '<saml:EncryptedAssertion xmlns:saml="%s">%s</saml:EncryptedAssertion>' % (SAML, edata)
+                for where in ("after", "before"):
+                    e = evil("newid", "nosig")
+                    d2 = doc.insert_before(t, e) if where == "before" else doc.insert_after(t, e)
+                    last = [c for c in d2.root.children if c.tag == (SAML, "Assertion")][-1]
+                    yield "xsw:sibling-%s:newid:nosig+encrypted-assertion-%s" % (where, ename), "xsw", d2.insert_after(last, enc_el).text()
+        except ImportError:
+            pass
         # genuine kept where it is, evil hidden first in document order inside Extensions (dup ID, evil first)
         e = evil("sameid", "copysig")
         d2 = _hide_at_response_level(doc, e, "Extensions")
